@@ -33,6 +33,17 @@ pub struct Error {
     pub span: Span,
 }
 
+impl Error {
+    /// An error about a construct the grammar accepts but the AST cannot represent.
+    pub(crate) fn unsupported(message: impl Into<String>, pair: &Pair<Rule>) -> Self {
+        Error {
+            message: message.into(),
+            src: pair.as_str().to_string(),
+            span: pair.as_span().into(),
+        }
+    }
+}
+
 impl From<pest::error::Error<Rule>> for Error {
     fn from(error: pest::error::Error<Rule>) -> Self {
         match &error.variant {
@@ -939,13 +950,19 @@ impl AstNode for UtxoRef {
     fn parse(pair: Pair<Rule>) -> Result<Self, Error> {
         let span = pair.as_span().into();
         let raw_ref = pair.as_span().as_str()[2..].to_string();
-        let (raw_txid, raw_output_ix) = raw_ref.split_once("#").expect("Invalid utxo ref");
 
-        Ok(UtxoRef {
-            txid: hex::decode(raw_txid).expect("Invalid hex txid"),
-            index: raw_output_ix.parse().expect("Invalid output index"),
-            span,
-        })
+        let (raw_txid, raw_output_ix) = raw_ref
+            .split_once("#")
+            .ok_or_else(|| Error::unsupported("invalid utxo ref", &pair))?;
+
+        let txid = hex::decode(raw_txid)
+            .map_err(|_| Error::unsupported("invalid hex txid in utxo ref", &pair))?;
+
+        let index = raw_output_ix
+            .parse()
+            .map_err(|_| Error::unsupported("invalid output index in utxo ref", &pair))?;
+
+        Ok(UtxoRef { txid, index, span })
     }
 
     fn span(&self) -> &Span {
